@@ -39,6 +39,17 @@ type Case struct {
 	ContactLang string                    `json:"contact_lang"` // "" eng fra spa kin
 	Allowed     []string                  `json:"allowed"`
 	Trans       map[string]map[string]int `json:"trans"` // property -> language -> state
+	// Before, when set, puts a sprint in front: the session starts with these settings, sends a message, waits, and the
+	// resume then brings the environment and the contact to Allowed/ContactLang; the localized items are resolved after it.
+	Before *Before `json:"before,omitempty"`
+}
+
+// Before is the state of the session before its environment and contact were refreshed.
+type Before struct {
+	ContactLang string   `json:"contact_lang"`
+	Allowed     []string `json:"allowed"`
+	Reload      bool     `json:"reload"`      // marshal and re-read the session before the resume
+	RefreshEnv  bool     `json:"refresh_env"` // false: the environment is not refreshed (Allowed must equal Before.Allowed)
 }
 
 var properties = []string{"text", "attachments", "quick_replies", "category", "cat_name", "arguments"}
@@ -118,7 +129,17 @@ func (c Case) assets() json.RawMessage {
 			"default_category_uuid": otherUUID},
 		"exits": []M{{"uuid": world.UUID("exit", 1)}, {"uuid": world.UUID("exit", 2)}},
 	}
-	flow := M{"uuid": world.UUID("flow", 1), "name": "L10n", "spec_version": "13.6.0", "language": "eng", "type": "messaging", "revision": 1, "expire_after_minutes": 0, "localization": loc, "nodes": []M{node}}
+	nodes := []M{node}
+	if c.Before != nil {
+		first := M{"uuid": world.UUID("node", 0),
+			"actions": []M{{"uuid": world.UUID("action", 9), "type": "send_msg", "text": "hello @contact.name, @(format_date(now()))"}},
+			"router": M{"type": "switch", "operand": "@input.text", "wait": M{"type": "msg"},
+				"categories": []M{{"uuid": world.UUID("category", 9), "name": "All", "exit_uuid": world.UUID("exit", 9)}}, "default_category_uuid": world.UUID("category", 9)},
+			"exits": []M{{"uuid": world.UUID("exit", 9), "destination_uuid": world.UUID("node", 1)}},
+		}
+		nodes = []M{first, node}
+	}
+	flow := M{"uuid": world.UUID("flow", 1), "name": "L10n", "spec_version": "13.6.0", "language": "eng", "type": "messaging", "revision": 1, "expire_after_minutes": 0, "localization": loc, "nodes": nodes}
 	b, _ := json.Marshal(M{"flows": []M{flow}, "channels": world.Channels()})
 	return b
 }
@@ -193,13 +214,23 @@ func same(a, b []string) bool {
 }
 
 func run(c Case) *harn.Failure {
-	env := M{"date_format": "YYYY-MM-DD", "time_format": "tt:mm", "timezone": "UTC"}
-	if len(c.Allowed) > 0 {
-		env["allowed_languages"] = c.Allowed
+	mkEnv := func(allowed []string) M {
+		env := M{"date_format": "YYYY-MM-DD", "time_format": "tt:mm", "timezone": "UTC"}
+		if len(allowed) > 0 {
+			env["allowed_languages"] = allowed
+		}
+		return env
 	}
-	contact := M{"uuid": world.UUID("contact", 1), "id": 1, "status": "active", "created_on": "2015-01-01T10:00:00Z", "name": "Bob", "urns": []string{"tel:+250788123456"}}
-	if c.ContactLang != "" {
-		contact["language"] = c.ContactLang
+	mkContact := func(lang string) M {
+		contact := M{"uuid": world.UUID("contact", 1), "id": 1, "status": "active", "created_on": "2015-01-01T10:00:00Z", "name": "Bob", "urns": []string{"tel:+250788123456"}}
+		if lang != "" {
+			contact["language"] = lang
+		}
+		return contact
+	}
+	env, contact := mkEnv(c.Allowed), mkContact(c.ContactLang)
+	if c.Before != nil {
+		env, contact = mkEnv(c.Before.Allowed), mkContact(c.Before.ContactLang)
 	}
 	tr := M{"type": "manual", "flow": M{"uuid": world.UUID("flow", 1), "name": "L10n"}, "contact": contact, "environment": env,
 		"triggered_on": scen.SprintTime(0).Add(-time.Minute).Format(time.RFC3339Nano), "params": M{"word": "magic"}}
@@ -213,6 +244,21 @@ func run(c Case) *harn.Failure {
 	}
 	if err != nil || sp.Err != nil {
 		return harn.Failf("harness-setup", "scenario does not run: %v / %v", err, sp.Err)
+	}
+	if c.Before != nil {
+		res := M{"type": "msg", "resumed_on": scen.SprintTime(1).Format(time.RFC3339Nano), "contact": mkContact(c.ContactLang),
+			"msg": M{"uuid": world.UUID("msg", 1), "urn": "tel:+250788123456", "text": "hi"}}
+		if c.Before.RefreshEnv {
+			res["environment"] = mkEnv(c.Allowed)
+		}
+		rb, _ := json.Marshal(res)
+		if p := guard.Call(30*time.Second, func() { sp, err = r.Resume(scen.Step{Resume: rb, Restart: c.Before.Reload}) }); p != nil {
+			return harn.PanicFailure("no-panic", "resuming", p)
+		}
+		if err != nil || sp.Err != nil {
+			return harn.Failf("harness-setup", "scenario does not resume: %v / %v", err, sp.Err)
+		}
+		stats.Label(fmt.Sprintf("history:reload=%v,envrefresh=%v", c.Before.Reload, c.Before.RefreshEnv))
 	}
 	var msg *msgEvent
 	for _, raw := range sp.Events {
@@ -327,6 +373,14 @@ func TestLocalization(t *testing.T) {
 			for _, l := range langs {
 				c.Trans[p][l] = rapid.IntRange(0, 4).Draw(rt, p+"/"+l)
 			}
+		}
+		if rapid.Bool().Draw(rt, "history") {
+			b := &Before{ContactLang: rapid.SampledFrom(contactLangs).Draw(rt, "clang0"), Allowed: rapid.SampledFrom(allowedLists).Draw(rt, "allowed0"),
+				Reload: rapid.Bool().Draw(rt, "reload"), RefreshEnv: rapid.IntRange(0, 3).Draw(rt, "refreshenv") > 0}
+			if !b.RefreshEnv {
+				b.Allowed = c.Allowed
+			}
+			c.Before = b
 		}
 		if stats.WantSample() {
 			stats.Sample(c)
